@@ -8,6 +8,9 @@ Read with `ast` only (the repository is never imported):
         name, regex source (the docstring), whether the body returns the token,
         whether the body retypes the token through `reserved` (t_ID)
                                     -> inductive Rule, ruleOrder, Rule.regex, Rule.returnsToken, Rule.retypesReserved
+        and the regex as an AST of lean/PyxModel/Regex.lean, obtained from Python's own regex parser under PLY's
+        default flags (translator/regex_ast.py; `lex.lex(...)` in `input` must not pass `reflags`)
+                                    -> Rule.rx
   * every p_* docstring             -> grammar (productions in source order), identifierAlts
   * the literal comparisons in the p_cardinality_* bodies -> cardinalityChecks
 
@@ -16,6 +19,8 @@ states, no literals); anything else raises, which the runner reports as a broken
 """
 import ast
 import os
+
+import regex_ast
 
 
 def _lean_str(s):
@@ -91,6 +96,12 @@ def generate(repo_dir):
             cls = node
     if cls is None:
         raise ValueError('class ModelLoader not found in xtuml/load.py')
+    # PLY compiles the rule regexes with `reflags` (default re.VERBOSE); the ASTs below are parsed under that default
+    for node in ast.walk(cls):
+        if isinstance(node, ast.Call) and isinstance(node.func, ast.Attribute) and node.func.attr == 'lex' \
+                and isinstance(node.func.value, ast.Name) and node.func.value.id == 'lex':
+            if any(k.arg == 'reflags' or k.arg is None for k in node.keywords):
+                raise ValueError('lex.lex is called with reflags: unsupported shape')
     reserved = None
     tokens_extra = None
     ignore = None
@@ -153,9 +164,12 @@ def generate(repo_dir):
                 ident_alts.append(rhs[0])
 
     o = []
+    o.append('import PyxModel.Regex')
+    o.append('')
     o.append('/-! GENERATED by translator/gen_sqllex.py from xtuml/load.py -- do not edit.')
     o.append('    Lexer rule order, reserved words, ignore set and grammar of the SQL dialect as the source states them. -/')
     o.append('namespace Gen.SqlLex')
+    o.append('open Pyx.Regex')
     o.append('')
     o.append('/-- `ModelLoader.reserved` -/')
     o.append('inductive Kw where')
@@ -190,6 +204,15 @@ def generate(repo_dir):
     o.append('def Rule.regex : Rule → String')
     for _, n, rx, _, _ in rules:
         o.append('  | .%s => %s' % (n, _lean_str(rx)))
+    o.append('')
+    o.append('/-- the regex of each rule as the parse tree Python\'s own `re._parser` gives for it (flags: PLY\'s default) -/')
+    o.append('def Rule.rx : Rule → Pyx.Regex.Regex')
+    for _, n, rx, _, _ in rules:
+        try:
+            term = regex_ast.lean_term(regex_ast.to_ast(rx))
+        except regex_ast.Unsupported as e:
+            raise ValueError('regex of t_%s is outside the modelled regex language: %s' % (n, e))
+        o.append('  | .%s => %s' % (n, term))
     o.append('')
     o.append('/-- does the rule body `return t` (otherwise the match is discarded) -/')
     o.append('def Rule.returnsToken : Rule → Bool')
